@@ -11,6 +11,7 @@ import (
 	"sort"
 	"strconv"
 	"strings"
+	"syscall"
 	"time"
 
 	"github.com/brutella/hc/db"
@@ -100,6 +101,29 @@ func c19PidNS() bool {
 	return c19PidNSOnce.ok
 }
 
+// c19OtherDeviceTmp returns a directory on a file system other than the one of dir (under /dev/shm), or "".
+var c19TmpOnce struct {
+	done bool
+	dir  string
+}
+
+func c19OtherDeviceTmp(dir string) string {
+	if c19TmpOnce.done {
+		return c19TmpOnce.dir
+	}
+	c19TmpOnce.done = true
+	var a, b syscall.Stat_t
+	if syscall.Stat(dir, &a) != nil || syscall.Stat("/dev/shm", &b) != nil || a.Dev == b.Dev {
+		return ""
+	}
+	d, err := os.MkdirTemp("/dev/shm", "verif-c19-")
+	if err != nil {
+		return ""
+	}
+	c19TmpOnce.dir = d
+	return d
+}
+
 func c19RunTraced(c *fw.Ctx, dir string, args []string, inject string) (string, error) {
 	logf := filepath.Join(c.Scratch, "strace.log")
 	os.Remove(logf)
@@ -117,6 +141,10 @@ func c19RunTraced(c *fw.Ctx, dir string, args []string, inject string) (string, 
 	}
 	cmd := exec.Command(prog, a...)
 	cmd.Env = append(os.Environ(), "GOMAXPROCS=1")
+	if t := c19OtherDeviceTmp(c.Scratch); t != "" {
+		// the system's temporary directory is on another file system than the storage (a tmpfs /tmp is common)
+		cmd.Env = append(cmd.Env, "TMPDIR="+t)
+	}
 	out, err := cmd.CombinedOutput()
 	b, rerr := os.ReadFile(logf)
 	if rerr != nil {
@@ -138,6 +166,13 @@ func c19Prepare(c *fw.Ctx, sc c19Scenario, dir string) error {
 	os.RemoveAll(dir)
 	if err := os.MkdirAll(dir, 0755); err != nil {
 		return err
+	}
+	if t := c19OtherDeviceTmp(c.Scratch); t != "" { // the pre-state includes an empty temporary directory
+		if es, err := os.ReadDir(t); err == nil {
+			for _, e := range es {
+				os.RemoveAll(filepath.Join(t, e.Name()))
+			}
+		}
 	}
 	ents, err := os.ReadDir(tmpl)
 	if err != nil {
@@ -449,6 +484,21 @@ func c19Run(c *fw.Ctx) {
 	if _, err := exec.LookPath("strace"); err != nil {
 		c.Infra("strace not found")
 		return
+	}
+	defer func() {
+		if c19TmpOnce.dir != "" {
+			os.RemoveAll(c19TmpOnce.dir)
+		}
+	}()
+	if c.Shard == 0 {
+		if c19PidNS() {
+			c.Extra("pid_namespace_runs", 1)
+		} else {
+			c.Note("unshare -p is not available: the restarted process does not get the process id of the killed one")
+		}
+		if c19OtherDeviceTmp(c.Scratch) != "" {
+			c.Extra("tmpdir_on_other_device", 1)
+		}
 	}
 	for i, sc := range c19Scenarios(c.Thorough()) {
 		if !c.Mine(i) {
